@@ -30,17 +30,17 @@ Inductive obs :=
 Definition bn (b : bool) : nat := if b then 1 else 0.
 Definition lkcode (l : lk) : nat := match l with LFree => 0 | LCaller => 1 | LMain => 2 end.
 Definition cpccode (p : cpc) : nat :=
-  match p with Idle => 0 | St_chk => 1 | St_spawn => 2 | St_setrun => 3 | St_rel => 4 | Sp_chk => 5
+  match p with Idle => 0 | St_chkF => 12 | St_chk => 1 | St_spawn => 2 | St_setrun => 3 | St_rel => 4 | Sp_chk => 5
   | Sp_rel1 => 6 | Sp_join => 7 | Sp_clear => 8 | Sp_acq2 => 9 | Sp_reset => 10 | Sp_rel2 => 11 end.
 Definition mpccode (m : mpc) : nat :=
   match m with MNone => 0 | M_acq => 1 | M_chk => 2 | M_recv => 3 | M_close => 4 | MEnded => 5 end.
 Definition skcode (s : sk) : nat := match s with SNone => 0 | SOpen => 1 | SClosed => 2 end.
 Definition tgcode (g : glob) : nat :=
   bn (running g) + 2 * (bn (shreq g) + 2 * (lkcode (lock g) + 3 * (bn (mref g) + 2 * (mpccode (mt g) + 6 * (skcode (sock g) + 3 * bn (err g)))))).
-Definition opcode (o : op) : nat := match o with Start => 1 | Stop => 0 end.
+Definition opcode (o : op) : nat := match o with Start => 1 | Stop => 0 | StartF => 2 end.
 
 Definition hpccode (p : hpc) : nat :=
-  match p with HIdle => 0 | H_chk => 1 | H_spawn => 2 | H_setrun => 3 | H_rel => 4 | P_chk => 5
+  match p with HIdle => 0 | H_chkF => 12 | H_chk => 1 | H_spawn => 2 | H_setrun => 3 | H_rel => 4 | P_chk => 5
   | P_wait => 6 | P_close => 7 | P_join => 8 | P_clear => 9 | P_reset => 10 | P_rel => 11 end.
 Definition hmpccode (m : hmpc) : nat :=
   match m with HMNone => 0 | HM_clear => 1 | HM_loop => 2 | HM_fin => 3 | HM_ret => 4 | HMEnded => 5 end.
@@ -48,7 +48,7 @@ Definition hskcode (s : hsk) : nat := match s with HSNone => 0 | HSOpen => 1 | H
 Definition hgcode (g : hglob) : nat :=
   bn (hrunning g) + 2 * (lkcode (hlock g) + 3 * (bn (hmref g) + 2 * (hmpccode (hmt g) + 6 * (hskcode (hsock g) + 3 *
   (bn (sreq g) + 2 * (bn (isdown g) + 2 * bn (herr g))))))).
-Definition hopcode (o : hop) : nat := match o with HStart => 1 | HStop => 0 end.
+Definition hopcode (o : hop) : nat := match o with HStart => 1 | HStop => 0 | HStartF => 2 end.
 
 Definition explore_fuel : nat := 60 * 60 * 60.
 
@@ -110,11 +110,13 @@ Definition seq_clauses (o : sop) (ob sp : list nat) : list string :=
    else match o with
         | SStop | SStopBusy => ["stop_releases"]
         | SStart => ["start_brings_up"]
+        | SStartFail => ["failed_start_leaves_state"]
         | _ => ["state_stable_between_calls"]
         end) ++
   (if Nat.eqb (nth0 ob 3) (nth0 sp 3) then []
    else match o with
         | SStopBusy => ["stop_waits_for_main_thread"]
+        | SStartFail => ["start_raises_iff_bind_fails"]
         | _ => ["requests_served_iff_running"]
         end).
 
@@ -160,7 +162,7 @@ Definition valid : case -> Prop := valid_f explore_fuel.
 
 (* ---------- sx ---------- *)
 Definition asSop (x : sx) : option sop :=
-  match x with I 0%Z => Some SStart | I 1%Z => Some SStop | I 2%Z => Some SRequest | I 3%Z => Some STick | I 4%Z => Some SStopBusy | _ => None end.
+  match x with I 0%Z => Some SStart | I 1%Z => Some SStop | I 2%Z => Some SRequest | I 3%Z => Some STick | I 4%Z => Some SStopBusy | I 5%Z => Some SStartFail | _ => None end.
 Definition asSrv (x : sx) : option srv := match x with I 0%Z => Some Tftp | I 1%Z => Some Http | _ => None end.
 Definition asHres (x : sx) : option handler_res :=
   match x with I 0%Z => Some HFile | I 1%Z => Some HTftpError | I 2%Z => Some HException | _ => None end.
@@ -177,11 +179,12 @@ Definition decode (x : sx) : option (case * obs) :=
       obind (asSrv sv) (fun sv => obind (asBool pre) (fun pre => obind (asListOf (asListOf asBool) ops) (fun ops =>
       obind (asNat r) (fun r => obind (asNat d) (fun d => obind (asListOf asNat f) (fun f =>
       Some (Conc sv pre ops, OConc r d f)))))))
-  | L [I 2%Z; so; hr; ts; xe; se; io] =>
+  | L [I 2%Z; so; hr; ts; xe; se; cf; io] =>
       obind (asBool so) (fun so => obind (asHres hr) (fun hr => obind (asBool ts) (fun ts =>
-      obind (asXend xe) (fun xe => obind (asBool se) (fun se => obind (asListOf asNat io) (fun io =>
+      obind (asXend xe) (fun xe => obind (asBool se) (fun se => obind (asBool cf) (fun cf =>
+      obind (asListOf asNat io) (fun io =>
       Some (Xfer {| sock_ok := so; hres := hr; tsize_raises := ts; xend := xe; send_err_raises := se;
-                    with_sock := true; with_file := true |}, OXfer io)))))))
+                    close_file_raises := cf; with_sock := true; with_file := true |}, OXfer io))))))))
   | _ => None
   end.
 
